@@ -7,7 +7,7 @@ from ..bfs import BOUNDS as _B
 
 PROPERTY = "C01"
 LEVEL = "model_checking"
-KINDS = ("update", "regenerate")
+KINDS = ("update", "regenerate", "index")
 RULE = (
     "explicit-state BFS per catalog program: initial states = every leaf of the simulate tree for each argument "
     "tuple; transitions = real edit calls (update with every single-address alternative value, pairs, empty "
